@@ -44,6 +44,7 @@ func NewChain(chainManager db.Manager, genesis store.Genesis) *chain {
 func (c *chain) Init() error {
 	c.log.Info("initializing ...")
 	defer c.log.Info("initialized")
+	verifOnNewChain(c)
 
 	c.log.Info("starting chain module with db", "location", c.chainManager.Location(), "frontier-identifier", c.GetFrontierMomentumStore().Identifier())
 
